@@ -105,6 +105,9 @@ type Config struct {
 	// set in Stats.NewRacy, so that the caller restarts the instance with it.
 	RacePoints bool
 	RacySites  []string
+	// RaceAllSites: accesses in harness code may become racy sites as well
+	// (used by the litmus suite, whose bodies are the code under test).
+	RaceAllSites bool
 }
 
 // Failure is one violating execution.
@@ -308,6 +311,7 @@ func (e *explorer) run2(prefix []int, trace, noSpin bool) (*Exec, *End, string, 
 	if x.raceOn {
 		x.shadow = map[uintptr]*shadow{}
 		x.racyFound = map[string]bool{}
+		x.raceAll = e.cfg.RaceAllSites
 		if e.cfg.RacePoints && len(e.racy) > 0 {
 			x.racySites, x.racyPC = e.racy, map[uintptr]bool{}
 		}
